@@ -53,9 +53,11 @@ def gen_plan(seed, tier="quick", variant=None):
     rng = random.Random(seed * 104729 + 3)
     thorough = tier == "thorough"
     if variant is None:
-        variant = rng.choice(["faulty", "faulty", "clean", "recovery"])
+        variant = rng.choice(["faulty", "faulty", "clean", "recovery", "outage"])
     clean = variant == "clean"
     nb = rng.randint(1, 4)
+    if variant == "outage":
+        nb = max(nb, 2)
     topics = []
     for i in range(rng.randint(1, 3)):
         np_ = rng.randint(1, 4)
@@ -98,6 +100,7 @@ def gen_plan(seed, tier="quick", variant=None):
         "shuffle_ties": rng.random() < 0.5,
         "client": {"timeout_ms": timeout_ms, "discover": discover, "retry": [round(rng.choice([0.01, 0.05, 0.2]), 3) for _ in range(3)]},
         "apiversions": apiv, "producer": pc, "connect_timeout": rng.choice([0.5, 2.0]),
+        "late_timers": random.Random(seed * 7919 + 5).choice([0.0, 0.0, 0.0, 0.002, 0.03]),
         "warm": clean or rng.random() < 0.3,
     }
     ops = []
@@ -170,7 +173,7 @@ def gen_plan(seed, tier="quick", variant=None):
                 faults.append({"api": 3, "node": node, "nth": rng.randint(0, 4), "act": "error", "code": rng.choice([5, 3, 999]),
                                "count": rng.choice([1, 2, 6])})
             elif kind == "refuse":
-                faults.append({"kind": "connect", "nth": rng.randint(0, 6), "what": rng.choice(["refused", "blackhole", "dns"]),
+                faults.append({"kind": "connect", "nth": rng.randint(0, 6), "what": rng.choice(["refused", "blackhole", "dns", "sync_fail"]),
                                "count": rng.choice([1, 2, 5])})
             elif kind == "broker_bounce" and nb > 1:
                 n = rng.randint(1, nb)
@@ -190,6 +193,27 @@ def gen_plan(seed, tier="quick", variant=None):
                 t0 = round(rng.random() * horizon, 6)
                 faults.append({"t": t0, "act": "freeze_meta", "node": n})
                 faults.append({"t": round(t0 + rng.choice([0.1, 1.0]), 6), "act": "thaw_meta", "node": n})
+    if variant == "outage":
+        # one of several brokers is unreachable - its partitions leaderless or still pointing at it - across several
+        # attempts of one batch while the others acknowledge: partial failure, then total failure of the retry, then success
+        for t in topics:
+            t["parts"] = max(t["parts"], 3)
+        pc["acks"] = rng.choice([0, 0, 1, -1])
+        pc.update(max_attempts=rng.choice([5, 10]), retry_interval=rng.choice([0.05, 0.1]), batch_send=True, every_n=rng.choice([3, 5]), every_b=0, every_t=0.3)
+        cfg["client"]["timeout_ms"] = rng.choice([300, 1000])
+        cfg["warm"] = rng.random() < 0.8  # a warm cache still names the dead broker: its request fails alone, by timeout
+        n = rng.randint(1, nb)
+        t0 = round(rng.random() * horizon * 0.3, 6)
+        faults = faults[:1] + [{"t": t0, "act": "broker_down", "node": n, "elect": rng.random() < 0.3},
+                               {"t": round(t0 + rng.choice([0.6, 1.5, 3.0]), 6), "act": "broker_up", "node": n}]
+        # a burst of sends right after the broker went away, spread over the partitions: one batch spans dead and healthy brokers
+        pc["partitioner"] = rng.choice(["rr", "rr", "hashed"])
+        sends_ = [o for o in ops if o["op"] == "send"]
+        for o in sends_:
+            o["t"] = round(t0 + 0.01 + rng.random() * 0.05, 6)
+            if o["topic"] != "nosuch" and rng.random() < 0.8:
+                o["topic"] = topics[0]["name"]
+        pc["every_n"] = max(2, min(len(sends_), rng.choice([4, 6])))
     t_faults_end = round(max([horizon * 1.6] + [f["t"] for f in faults if "t" in f]) + 0.01, 6)
     post = []
     if variant == "recovery":
@@ -1000,6 +1024,24 @@ def _check_c09(w, plan, res, sends, order, produce_calls, state, produce_written
             res.violate("C09", "C09:attempt-limit-exceeded", "%d produce attempts for one batch, limit %d" % (len(b["calls"]), pc["max_attempts"]))
         if len(b["calls"]) > 1:
             res.probe("batch_retried")
+    # a send whose caller has been told "success" (an acknowledgement, or - with acks=0 - the hand-over to a connection)
+    # is finished: no later produce call may carry its messages again
+    for sid in order:
+        s = sends[sid]
+        wd = s["w"]
+        if not (wd.fires == 1 and wd.ok):
+            continue
+        mine = set(kv for kv in s["kvs"] if kv[1] is not None)
+        if not mine:
+            continue
+        res.oblige("C09")
+        for c in produce_calls:
+            if c["seq"] <= wd.seq:
+                continue
+            if any(kv in mine for lst in c["kvs"].values() if lst is not None for kv in lst):
+                res.violate("C09", "C09:acknowledged-payload-resent:after-caller-was-told-success:acks=%s" % ("0" if pc["acks"] == 0 else "n"),
+                            "send %d succeeded at %.6f; the produce call issued at %.6f carries its messages again" % (sid, wd.t, c["t"]))
+                break
     # acknowledged (error 0 delivered to the client in time) partitions must not be re-sent by a later attempt
     timeout = plan["cfg"]["client"]["timeout_ms"] / 1000.0
     wrote_at = {}
